@@ -14,6 +14,17 @@ OPEN = {"(": ")", "[": "]", "{": "}", "<": ">"}
 CLOSE = {")", "]", "}", ">"}
 
 
+def char_lit_end(s, i):
+    """s[i] == "'" right after `const `: index of the closing quote of a char literal, or None"""
+    n = len(s)
+    if i + 2 < n and s[i + 1] != "\\" and s[i + 2] == "'":
+        return i + 2
+    if i + 1 < n and s[i + 1] == "\\":
+        j = s.find("'", i + 3) if (i + 2 < n and s[i + 2] == "'") else s.find("'", i + 2)
+        return j if j != -1 else None
+    return None
+
+
 def match_close(s, i):
     """s[i] is an opening bracket; return index of its matching close. '<' '>' are treated as brackets
     except in '->' and '=>' and comparison-free MIR text; string literals are skipped."""
@@ -27,6 +38,8 @@ def match_close(s, i):
                 if s[i] == "\\":
                     i += 1
                 i += 1
+        elif c == "'" and s[max(0, i - 6):i] == "const " and char_lit_end(s, i) is not None:
+            i = char_lit_end(s, i)
         elif c in OPEN:
             if c == "<" and i + 1 < n and s[i + 1] in "= ":
                 pass
@@ -65,6 +78,12 @@ def split_top(s, sep=","):
             cur.append(s[i:j + 1])
             i = j + 1
             continue
+        if c == "'" and s[max(0, i - 6):i] == "const ":
+            j = char_lit_end(s, i)
+            if j is not None:
+                cur.append(s[i:j + 1])
+                i = j + 1
+                continue
         if c in OPEN and not (c == "<" and i + 1 < n and s[i + 1] in "= "):
             depth += 1
         elif c in CLOSE and not (c == ">" and i > 0 and s[i - 1] in "-="):
